@@ -1,6 +1,7 @@
 """Statement CFG with explicit edge nodes, dominance, reachability, reaching
 definitions and def-use expansion of expressions (the 'influence' engine)."""
 import ast
+import os
 import copy
 import itertools
 
@@ -70,7 +71,12 @@ class CFG:
             preds = self._stmt(s, preds)
         return preds
 
-    def _test(self, stmt, expr, preds):
+    def _test(self, stmt, expr, preds, may_flip=True):
+        # `if not X` is the test X with the two edges exchanged: the node carries X, the edge labels say which way X went
+        # (loops keep their test as written: the body of a loop is its True edge)
+        flip = False
+        while may_flip and isinstance(expr, ast.UnaryOp) and isinstance(expr.op, ast.Not) and os.environ.get("VERIF_KEEP_NOT") != "1":
+            expr, flip = expr.operand, not flip
         t = self._new("test", stmt, expr)
         self._connect(preds, t)
         et = self._new("edge", stmt)
@@ -79,7 +85,7 @@ class CFG:
         ef.test, ef.label = t, False
         self._edge(t, et)
         self._edge(t, ef)
-        return t, et, ef
+        return (t, ef, et) if flip else (t, et, ef)
 
     def _stmt(self, s, preds):
         if isinstance(s, ast.If):
@@ -88,7 +94,7 @@ class CFG:
             b = self._block(s.orelse, [ef]) if s.orelse else [ef]
             return a + b
         if isinstance(s, ast.While):
-            t, et, ef = self._test(s, s.test, preds)
+            t, et, ef = self._test(s, s.test, preds, may_flip=False)
             brk = []
             self._loops.append((t, brk))
             body_end = self._block(s.body, [et])
